@@ -147,6 +147,26 @@ func propC09(c *ctx) error {
 		}
 	}
 	res.Distribution["operator_pairs_exhaustive"] = cnt
+	// mixed integer / float operands at the edge of float64's exact integer range, every binary operator that
+	// accepts them, both operand orders: the integer operand is converted to float64 first
+	edgeI := []string{"9007199254740991", "9007199254740992", "9007199254740993", "9007199254740995", "9223372036854775807", "4611686018427387905", "16777217"}
+	edgeF := []string{"9007199254740992.0", "9007199254740994.0", "9223372036854775808.0", "4611686018427387904.0", "16777216.0", "0.5"}
+	for _, a := range edgeI {
+		for _, b := range edgeF {
+			for _, op := range append(append([]string{}, relOps...), fltBinOps...) {
+				for _, swap := range []bool{false, true} {
+					l, rr := &Ex{Op: "lit-int", Text: a}, &Ex{Op: "lit-float", Text: b}
+					if swap {
+						l, rr = rr, l
+					}
+					e := &Ex{Op: "bin", Text: op, Kids: []*Ex{l, rr}}
+					if err := run(J{"src": printEx(e, nil, 0), "envval": env.frame, "expect": refEval(e, env.ref).canon()}, false); err != nil {
+						return err
+					}
+				}
+			}
+		}
+	}
 	if res.Distribution["impl_ok"]*5 < res.Evaluations {
 		res.SelfTest = append(res.SelfTest, "generator degenerate: fewer than 20% of the expressions evaluate to a value")
 	}
